@@ -46,6 +46,10 @@ T = {
                 technique="runtime differential oracle: real VParallelAdvection.step vs independent interpolate-and-shift with the three boundary rules; gridStep/gridStepKeepGradient on simulated ranks vs reference from global coordinates",
                 text="Generated v-spaces, boundary modes and shifts (0 ... 3 domains); grid-level wiring on process grids splitting r, z, both, neither, with random global fields.",
                 note=REF + "; " + SIM),
+    "C12": dict(level="exploration", engine="refmath+stepcount", design="3/C12",
+                technique="runtime differential oracle: real PoloidalAdvection.step vs an independent vectorised Heun / converged implicit-trapezoid implementation on dense-collocation 2-D splines; exact-solution anchors; sys.monitoring sweep counter for termination (logical steps, not seconds)",
+                text="Generated grids, bases, potentials (smooth, rough, modes, rigid rotation, constant), dt over three decades and both signs, both boundary modes and schemes; every non-excluded node compared; anchors; termination inside the contraction regime bounded in sweeps; non-terminating hostile class recorded as known finding.",
+                note=REF + "; Lipschitz constant of the drift estimated numerically (x1.2)"),
     "C13": dict(level="exploration", engine="refmath", design="3/C13",
                 technique="runtime differential oracle: real ParallelGradient.parallel_gradient vs independent field-aligned finite-difference formula (exact-rational weights), identities and observed convergence order; per-rank Layout objects for the local-index mapping",
                 text="Orders 2-6, generated sizes/degrees/twist incl. caller-supplied r-dependent transform, r split over 1-4 ranks, every local radial index and every node incl. seam rows; identities; convergence order.",
@@ -62,6 +66,10 @@ T = {
                 technique="runtime differential oracle: real DensityFinder on simulated ranks vs exact Gauss-Legendre integral of the reference v-interpolant (minus equilibrium at the global radius)",
                 text="Generated v-spaces (5-40 nodes, degree 1-5), data kinds and process grids splitting r and/or z; float and complex rho storage; every (r,theta,z) compared.",
                 note=REF + "; " + SIM),
+    "C17": dict(level="exploration", engine="simmpi", design="3/C17",
+                technique="runtime oracle: sums over simulated ranks of the real local diagnostics, Grid.getMin/getMax at every drawing rank and DiagnosticCollector rows after reduce() vs serial quadrature / min / max of the assembled global random field; reductions combined in seeded arrival order",
+                text="Generated grids and process grids up to 6 ranks, all layouts incl. replicated ones (one replica set), unit field vs analytic volume, slot bookkeeping of the collector for save intervals 1-4.",
+                note=SIM + "; replicated layouts: sum over one replica set"),
     "C20": dict(level="exploration", engine="direct+simmpi", design="3/C20",
                 technique="runtime oracle: brute-force divisor enumeration (exhaustive box + random), sys.monitoring line budget for termination, layouts built and transposed on the chosen grid under simulated MPI",
                 text="Exhaustive comparison with brute force inside a bounded box, random sampling far beyond, termination judged in executed lines; the chosen grid is used to build and exercise the standard layouts.",
